@@ -8,6 +8,7 @@ import Driver.C11
 import Driver.C15
 import Driver.C13
 import Driver.C16
+import Driver.C06
 open Driver
 
 def machines : List (String × Machine × Machine) :=
@@ -20,7 +21,8 @@ def machines : List (String × Machine × Machine) :=
    ("C11", C11.machine, C11.judge),
    ("C15", C15.machine, C15.judge),
    ("C13", C13.machine, C13.judge),
-   ("C16", C16.machine, C16.judge)]
+   ("C16", C16.machine, C16.judge),
+   ("C06", C06.machine, C06.judge)]
 
 def main (args : List String) : IO UInt32 := do
   match args with
